@@ -428,7 +428,8 @@ def initLocals (ds : Defs) : Nat → Ctl → XStore → List Local → XRes Unit
 def callFunction (ds : Defs) : Nat → Ctl → XStore → FuncDef → XArgs → XRes Val
   | 0, _, σ, _, _ => (σ, xtimeout)
   | fuel + 1, ctl, σ, fd, args =>
-    let positional := args.allPositional
+    -- `!args.is_empty() && args.iter().all(|arg| arg.name.is_none())` (d406d2d)
+    let positional := decide (args.length ≠ 0) && args.allPositional
     if positional ∧ args.length ≠ fd.params.length then
       (σ, fault .InvalidArgumentCount .callArgCount)
     else
@@ -468,7 +469,7 @@ written in the caller's context after the pop. -/
 def callFb (ds : Defs) : Nat → Ctl → XStore → String → FbDef → XArgs → XRes XFlow
   | 0, _, σ, _, _, _ => (σ, xtimeout)
   | fuel + 1, ctl, σ, c, fb, args =>
-    let positional := args.allPositional
+    let positional := decide (args.length ≠ 0) && args.allPositional
     if positional ∧ args.length ≠ fb.params.length then
       (σ, fault .InvalidArgumentCount .callArgCount)
     else
@@ -698,6 +699,7 @@ def xcycle (p : XProgram) (fuel : Nat) (st : XRunState) : XRunState × CycleOut 
   let σ2 := popFrame σ1
   match r with
   | .ok .cont => ({ store := σ2, faulted := false }, none)
+  | .ok (.ret _) => ({ store := σ2, faulted := false }, none)      -- f3b5b76
   | .ok _ => ({ store := σ2, faulted := true }, some (.fault .InvalidControlFlow .programFlow))
   | .error s => ({ store := σ2, faulted := true }, some s)
 
